@@ -36,12 +36,29 @@ type Fabric struct {
 	Wire  []Sent           // everything the agent wrote, in order
 	Peers map[string]*Peer // by address string
 	Unix  map[string]*UnixSock
+	// Hosts: the name service of the execution (host name -> IPv4 literal). A name that is not listed does not resolve.
+	Hosts map[string]string
+}
+
+// resolve is net.ResolveUDPAddr over the fabric's name service: IP literals as usual, listed host names by table.
+func resolve(addr string) (*net.UDPAddr, error) {
+	if host, port, err := net.SplitHostPort(addr); err == nil && net.ParseIP(host) == nil && host != "" {
+		ip, ok := "", false
+		if F != nil {
+			ip, ok = F.Hosts[host]
+		}
+		if !ok {
+			return nil, &net.DNSError{Err: "no such host", Name: host, IsNotFound: true}
+		}
+		addr = net.JoinHostPort(ip, port)
+	}
+	return net.ResolveUDPAddr("udp", addr)
 }
 
 var F *Fabric
 
 func NewFabric() *Fabric {
-	F = &Fabric{Peers: map[string]*Peer{}, Unix: map[string]*UnixSock{}}
+	F = &Fabric{Peers: map[string]*Peer{}, Unix: map[string]*UnixSock{}, Hosts: map[string]string{}}
 	return F
 }
 
@@ -170,7 +187,10 @@ func ReuseDial(network, laddr, raddr string) (net.Conn, error) {
 		return reuse.Dial(network, laddr, raddr)
 	}
 	l, _ := net.ResolveUDPAddr("udp", laddr)
-	r, _ := net.ResolveUDPAddr("udp", raddr)
+	r, err := resolve(raddr)
+	if err != nil {
+		return nil, &net.OpError{Op: "dial", Net: network, Err: err}
+	}
 	s := &sock{local: l, remote: r}
 	F.socks = append(F.socks, s)
 	return s, nil
@@ -223,6 +243,9 @@ func Dial(network, addr string) (net.Conn, error) {
 		}
 		return nil, &net.OpError{Op: "dial", Net: network, Err: os.ErrNotExist}
 	}
-	r, _ := net.ResolveUDPAddr("udp", addr)
+	r, err := resolve(addr)
+	if err != nil {
+		return nil, &net.OpError{Op: "dial", Net: network, Err: err}
+	}
 	return &sock{local: &net.UDPAddr{IP: net.ParseIP("127.0.0.1"), Port: 1}, remote: r}, nil
 }
